@@ -262,6 +262,17 @@ def build_spec(kind: str, mode: str, ctx: Any, tier: str) -> tuple[dict, dict]:
                     kw['file_set_number'] = assigned['file_set_number']
     ops.append(S.op_add(kind, 'T', tname, **kw))
     ops.extend(later)
+    # an assignment that is refused (one element is no value at all), with another number of elements than the value
+    # the attribute holds: the attribute must keep its value AND the count that goes with it
+    refused = ctx.choose('refused-reassign', [None, 'more', 'one'])
+    refused_ops: list[int] = []
+    if refused:
+        for ad in settable(kind):
+            v = assigned.get(ad.kw)
+            if ad.multi and isinstance(v, list) and v and not (kind == 'frame' and ad.kw == 'channels'):
+                bad = v + [{'$bad': 'object'}, v[0]] if (refused == 'more' or len(v) == 1) else [{'$bad': 'object'}]
+                refused_ops.append(len(ops))
+                ops.append({'op': 'set', 'h': 'T', 'attr': ad.attr, 'part': 'value', 'value': bad, 'expect': 'raise'})
     if position in ('before-bare', 'between-full'):
         kw1 = dict(sname)
         if kind == 'frame':
@@ -272,4 +283,5 @@ def build_spec(kind: str, mode: str, ctx: Any, tier: str) -> tuple[dict, dict]:
         # to a renamed set (under either name) is not an operation the API supports
         ops.append({'op': 'setname', 'h': 'T', 'value': rename_set})
     sp = {'sul': {'max_record_length': vrl}, 'ops': ops, 'write': {}}
-    return sp, {'target': 'T', 'assigned': assigned, 'units': units, 'route': route, 'position': position}
+    return sp, {'target': 'T', 'assigned': assigned, 'units': units, 'route': route, 'position': position,
+                'refused_ops': refused_ops}
